@@ -61,14 +61,43 @@ class FSession(KSession):
     def record(self, opterm, pyop, thunk, multi=False):
         r = KSession.record(self, opterm, pyop, thunk, multi)
         self.ops[-1] = '(FK %s)' % self.ops[-1]
+        self.observe_ensembles(pure=pyop[0] in ('read', 'sens', 'ucomp', 'get_cov', 'get_corr'))
         return r
 
-    def _emit(self, term, pyop, out, slots):
+    def _emit(self, term, pyop, out, slots, observe=True):
         self.ops.append(term); self.pyops.append(pyop); self.outs.append(out)
         for o in slots:
             if o is not None: self.first.setdefault(id(o), len(self.slots))
             self.slots.append(o)
         self.stats[pyop[0]] = self.stats.get(pyop[0], 0) + 1
+        if observe: self.observe_ensembles()
+
+    def live_leaves(self):
+        """every Leaf reachable from an object this session holds (the registry is weak: these are the live ones)"""
+        seen = {}
+        for o in self.slots:
+            if isinstance(o, self.lib.UncertainReal):
+                for v in (o._u_components, o._d_components):
+                    for k in v._index:
+                        if hasattr(k, 'independent'): seen.setdefault(k.uid, k)
+                n = o._node
+                if n is not None and hasattr(n, 'independent') and n.uid is not None: seen.setdefault(n.uid, n)
+        return [seen[u] for u in sorted(seen)]
+
+    def observe_ensembles(self, pure=False):
+        """after every step: what `leaf.ensemble` holds NOW for every live Leaf created so far (an ensemble is one
+        shared mutable set: a later append_real_ensemble must be seen through every member)"""
+        lv = self.live_leaves()
+        if not lv: return
+        t = '(FEnsOf %s)' % clist([ckey(k.uid) for k in lv])
+        out = '(OutList %s)' % clist([out_keys(getattr(k, 'ensemble', ())) for k in lv])
+        if pure and getattr(self, '_last_ens', None) == (t, out):
+            # a pure read, and the implementation shows exactly what was compared after the previous step:
+            # nothing new to hand to the model (any change seen here IS emitted and compared)
+            self.stats['ens-unchanged-after-read'] = self.stats.get('ens-unchanged-after-read', 0) + 1
+            return
+        self._last_ens = (t, out)
+        self._emit(t, ('ens', [list(k.uid) for k in lv]), out, [], observe=False)
 
     # ---------------- fits
     def _fit_out(self, fit):
@@ -372,6 +401,12 @@ def observe_result(s, rng, fi, r):
     if rng.random() < 0.5: s.sens(i, sb)
     if rng.random() < 0.5: s.get_cov(i, sa)
 
+def _reads_since(s, r):
+    """distance from the last slot back to the slot holding object r"""
+    for back in range(len(s.slots)):
+        if s.slots[len(s.slots) - 1 - back] is r: return back
+    raise KeyError('result not in a slot')
+
 def predictions(s, rng, fi, combo_index, malformed=False):
     fit = s.fits[fi]
     cls = CLS.get(type(fit).__name__) if fit is not None else None
@@ -379,6 +414,7 @@ def predictions(s, rng, fi, combo_index, malformed=False):
     a, b = fit.a_b
     sa, sb = s.fit_slots[fi]
     npred = rng.randint(2, 4)
+    done = []                    # slots of the results returned so far by this fit object
     for j in range(npred):
         c = (combo_index + j) % 8
         lab1 = rng.randint(10, 49) if c & 1 else None
@@ -408,8 +444,22 @@ def predictions(s, rng, fi, combo_index, malformed=False):
             r = s.y_from_x(fi, xa, extra, s_label=lab1, y_label=lab2)
             s.kinds['y_from_x:%s:x=%s:s_label=%d:y_label=%d' % (cls, xa[0], lab1 is not None, lab2 is not None)] += 1
         observe_result(s, rng, fi, r)
+        # every earlier prediction from this fit object is re-read after the later one (same dof, same u)
+        for i in done:
+            s.read('df', i); s.read('u', i)
+        if r is not None and r is not a:
+            done.append(len(s.slots) - 1 - _reads_since(s, r))
         if r is not None and rng.random() < 0.3:
             observe_fit(s, rng, fi)      # the fit's own numbers are unchanged by a prediction
+    if len(done) >= 2:
+        i, j = rng.sample(done, 2)
+        for f in (['sub', 'add'] if rng.random() < 0.5 else ['sub']):
+            d = s.bin(f, ('ref', i), ('ref', j))
+            if d is not None:
+                k = len(s.slots) - 1
+                s.read('x', k); s.read('df', k); s.read('u', k)
+        s.kinds['combined-predictions'] += 1
+    if done: s.kinds['predictions-per-fit=%d' % len(done)] += 1
 
 MALFORMED = ['len', 'zero_w', 'same_x', 'dof', 'neg_w', 'small_n', 'pred']
 
@@ -484,9 +534,19 @@ def run_corr(rng, nprog, name='C13', per_file=None):
             'rule': 'one program = optional earlier declarations, a fit (the 26 combinations of class x dof x label '
                     '[x r_xy x a0_b0 for WTLS] are cycled, N cycles through 3..12), reads of a and b (x, u, df, correlation, '
                     'covariance), 2-4 predictions cycling the 8 combinations of the optional labels and a plain / uncertain '
-                    'stimulus, reads of each result (x, u, df, components w.r.t. a and b), sometimes a second fit on the same '
+                    'stimulus, reads of each result (x, u, df, components w.r.t. a and b); after each later prediction the df and u of '
+                    'every earlier prediction of the same fit object are read again, and the df/u of a difference (and sum) of two '
+                    'predictions; after EVERY step the ensemble content of every live Leaf created so far is observed (handed to the model unless the step was a pure read and the observation is identical to the one just compared); sometimes a second fit on the same '
                     'data; every 7th program is malformed (lengths, zero/negative weight, equal x, bad dof, N < 3, bad '
                     'prediction arguments); every step output (dumps of a, b, the Leaf of every new input incl. its ensemble, '
                     'ssr, N, results or exception class) compared bit for bit with the FNum model; non-trivial = contains a '
                     'fit; distinct by hash of the operation list',
             'samples': [{'program': s.pyops[:6]} for s in sessions[:2]]}
+
+
+def fit_correspondence(rng, tier, n=None):
+    """the fit / ensemble programs as a standard correspondence suite (also used by the C05 check: every program
+    ends up reading dofs of results whose influences are members of one growing ensemble)"""
+    if n is None:
+        n = 208 if tier == 'quick' else 5200
+    return run_corr(rng, n, name='fit_%d' % os.getpid())
